@@ -2,6 +2,8 @@
 
 A *case* is {'chans': [cfg...], 'ops': [op...]}:
   cfg = {'wa','pa','wb','pb','keepA','keepB','pausedA' ('n'|'s'),'decA','decB'}
+        optional 'enc' (+ 'errors'): BOTH ends are text channels with that encoding (profile 'textenc'); a write
+        then carries the UTF-8 of the string handed to `chan.write` (whatever the channel encoding is)
         side a = client (window wa / max packet pa advertised by it), side b = server
   op  = ['app', side, i, 'write', dt|None, hex] | ['app', side, i, 'eof'|'close'|'pause'|'resume'] |
         ['app', side, i, 'arm', k] | ['deliver', side] | ['burst', k] (starting case: SUCCESS reply + k messages
@@ -194,6 +196,13 @@ class _ServerSess(_Sess, asyncssh.SSHServerSession):      # type: ignore
         return True
 
 
+def chan_encoding(cfg: Dict[str, Any], side: str) -> Optional[str]:
+    """the `encoding` argument of the channel of side 'A' (client) / 'B' (server)"""
+    if cfg.get('enc'):
+        return str(cfg['enc'])
+    return 'utf-8' if cfg.get('dec' + side) else None
+
+
 def _server_factory(cfgs: List[Dict[str, Any]], made: List[_ServerSess]) -> Any:
     class Srv(asyncssh.SSHServer):
         def connection_made(self, conn: Any) -> None:
@@ -204,9 +213,9 @@ def _server_factory(cfgs: List[Dict[str, Any]], made: List[_ServerSess]) -> Any:
 
         def session_requested(self) -> Any:
             cfg = cfgs[len(made)]
-            chan = self._conn.create_server_channel(encoding='utf-8' if cfg.get('decB') else None,
+            chan = self._conn.create_server_channel(encoding=chan_encoding(cfg, 'B'), errors=cfg.get('errors', 'strict'),
                                                     window=cfg['wb'], max_pktsize=cfg['pb'])
-            sess = _ServerSess(cfg['keepB'], bool(cfg.get('decB')))
+            sess = _ServerSess(cfg['keepB'], chan_encoding(cfg, 'B') is not None)
             made.append(sess)
             return chan, sess
     return Srv
@@ -355,10 +364,10 @@ class RealRun:
         self._mark()
         self.holding = False
         for i, cfg in enumerate(self.cfgs):
-            sess = _ClientSess(cfg['keepA'], bool(cfg.get('decA')))
+            sess = _ClientSess(cfg['keepA'], chan_encoding(cfg, 'A') is not None)
             self.csess.append(sess)
             task = asyncio.ensure_future(self.c.create_session(
-                lambda sess=sess: sess, encoding='utf-8' if cfg.get('decA') else None,
+                lambda sess=sess: sess, encoding=chan_encoding(cfg, 'A'), errors=cfg.get('errors', 'strict'),
                 window=cfg['wa'], max_pktsize=cfg['pa']))
             starting = cfg.get('pausedA', 'n') == 's'
             hold = (lambda t, p: t == MSG_SUCCESS) if starting else None
@@ -700,9 +709,61 @@ def gen_write(rng: random.Random, case: Dict[str, Any], side: str, i: int, pendi
     return ['app', side, i, 'write', dt, hx(data) if data else '']
 
 
+# text channels in encodings whose codec keeps state across writes (and some that do not, as controls)
+TEXT_ENCODINGS = [('utf-16', 'strict'), ('utf-32', 'strict'), ('utf-8-sig', 'strict'), ('utf-16', 'strict'),
+                  ('utf-8-sig', 'strict'), ('utf-32', 'strict'), ('utf-16-le', 'strict'), ('utf-16-be', 'strict'),
+                  ('utf-32-be', 'strict'), ('latin-1', 'strict'), ('utf-8', 'replace'), ('utf-8-sig', 'replace')]
+TEXT_CHARS = ['a', 'Z', '0', '\n', ' ', 'é', 'ß', 'ÿ', '€', 'ࠀ', '\ufeff', '\ufffe', '\uffff', '퟿', '\ue000', '😀',
+              '\U00010000', '\U0010ffff']
+
+
+def gen_text(rng: random.Random, enc: str) -> str:
+    chars = [c for c in TEXT_CHARS if ord(c) < 256] if enc == 'latin-1' else TEXT_CHARS
+    r = rng.random()
+    n = 0 if r < 0.2 else rng.randint(1, 3) if r < 0.7 else rng.randint(4, 12)
+    return ''.join(rng.choice(chars) for _ in range(n))
+
+
+def gen_textenc(rng: random.Random) -> Dict[str, Any]:
+    """both ends text channels in one encoding; several non-empty writes per direction with empty ones in between,
+    stdout and stderr, astral characters, small windows and packet sizes, deliveries and pauses interleaved, EOF"""
+    enc, errors = rng.choice(TEXT_ENCODINGS)
+    small = rng.random() < 0.6
+    cfg = {'wa': rng.choice(WINDOWS[:6] if small else WINDOWS + [1 << 21]),
+           'wb': rng.choice(WINDOWS[:6] if small else WINDOWS + [1 << 21]),
+           'pa': rng.choice(PKTSIZES[:5] if small else PKTSIZES), 'pb': rng.choice(PKTSIZES[:5] if small else PKTSIZES),
+           'keepA': True, 'keepB': True, 'pausedA': 'n', 'decA': False, 'decB': False, 'enc': enc, 'errors': errors}
+    case: Dict[str, Any] = {'profile': 'textenc', 'chans': [cfg], 'ops': []}
+    ops = case['ops']
+    todo = {'a': rng.randint(2, 5), 'b': rng.randint(2, 6)}
+    while todo['a'] or todo['b']:
+        side = rng.choice([x for x in 'ab' if todo[x]])
+        text = gen_text(rng, enc)
+        if text:
+            todo[side] -= 1
+        dt = 1 if side == 'b' and rng.random() < 0.35 else None
+        ops.append(['app', side, 0, 'write', dt, hx(text.encode('utf-8')) if text else ''])
+        r = rng.random()
+        if r < 0.45:
+            ops += [['deliver', rng.choice('ab')] for _ in range(rng.randint(1, 4))]
+        elif r < 0.52:
+            ops.append(['app', rng.choice('ab'), 0, 'pause'])
+        elif r < 0.60:
+            ops.append(['app', rng.choice('ab'), 0, 'resume'])
+        elif r < 0.64:
+            ops.append(['app', rng.choice('ab'), 0, 'arm', rng.randint(0, 2)])
+    for side in 'ab':
+        if rng.random() < 0.6:
+            ops.append(['app', side, 0, 'eof'])
+    case['drain_from'] = len(ops)
+    return case
+
+
 def gen_case(rng: random.Random, profile: str = 'stream') -> Dict[str, Any]:
     """profiles: stream (C07 default), tiny (windows <= 8), multi (3-4 channels), starting (burst before the
     client starts reading), hostile (C08: raw peer), zero (max packet size 0)"""
+    if profile == 'textenc':
+        return gen_textenc(rng)
     if profile == 'multi':
         nchan = rng.choice([2, 3, 4, 4])
     elif profile in ('starting', 'hostile', 'zero'):
